@@ -186,3 +186,23 @@ Contract(
     loops={0: LoopSpec("while", inv=["tn_node_ok(x, N)"])},
     props=("C05",), native={"skip": True},
 )
+
+
+# ---- deletion, successor case (CLRS 13-15): the successor's payload moves into the node that stays, whose maximum is recomputed.
+# Fragment extracted mechanically: the straight-line prefix of the body of `if y != NIL_ID and y != z:` in _delete_from_tree
+# (dropped: everything else of the function - search, unlinking, the upward repair walks, the red-black fix-up).
+Contract(
+    M, "_delete_from_tree@successor_payload", dict(_TT, y="int", z="int"), lets=_LETN,
+    requires=_TSH + ["tn_node_ok(y, N) and tn_node_ok(z, N) and y != z",
+                     "tn_ptr_ok(tree_nodes[z, 1], N) and tn_ptr_ok(tree_nodes[z, 2], N) and tree_nodes[z, 1] != z and tree_nodes[z, 2] != z",
+                     "tv_row_finite(tree_vals, y) and tv_row_finite(tree_vals, z)",
+                     "isfinite(tree_vals[tree_nodes[z, 1], 7]) and isfinite(tree_vals[tree_nodes[z, 2], 7])"],
+    modifies=("tree_vals",), result="int", neg_index=True,
+    ensures=[
+        "all(same(tree_vals[z, f], old(tree_vals[y, f])) for f in range(0, 7))",
+        "is_max3(tree_vals[z, 7], tv_min_grad(tree_vals, z), old(tree_vals[tree_nodes[z, 1], 7]), old(tree_vals[tree_nodes[z, 2], 7]))",
+        "all(v == z or same(tree_vals[v, f], old(tree_vals[v, f])) for v in range(0, N) for f in range(0, 8))",
+    ],
+    options={"fragment": ("if_prefix", "y != NIL_ID and y != z"), "fragment_result": "z"},
+    props=("C05",), native={"skip": True},
+)
